@@ -128,7 +128,14 @@ Proof.
   rewrite <- (app_nil_r (tlv 48 _)).
   pose proof (lenN_tlv 4 t ltac:(lia)) as L4.
   pose proof (lenN_tlv 162 (tlv 4 t) ltac:(lia)) as L162.
-  erewrite parse_field_plain_hit; try reflexivity; try (vm_compute; congruence).
+  rewrite (parse_field_plain_hit false 16 true neg_token_init_content nti_zero 48
+             (tlv 160 (tlv 48 ntlm_oid_der) ++ tok_field t) []
+             {| nti_mech_types := [ntlm_oid]; nti_req_flags := (0, []); nti_mech_token := Some t; nti_mic := None |}).
+  - reflexivity.
+  - vm_compute; congruence.
+  - reflexivity.
+  - reflexivity.
+  - reflexivity.
   - rewrite lenN_app. unfold tok_field. change (lenN (tlv 160 (tlv 48 ntlm_oid_der))) with 16. lia.
   - apply neg_token_init_content_spec. lia.
 Qed.
@@ -140,7 +147,8 @@ Proof.
   pose proof (lenN_tlv 162 (tlv 4 t) ltac:(lia)) as L162.
   assert (L : lenN (tlv 160 (tlv 48 ntlm_oid_der) ++ tlv 162 (tlv 4 t)) <= lenN t + 28).
   { rewrite lenN_app. change (lenN (tlv 160 (tlv 48 ntlm_oid_der))) with 16. lia. }
-  pose proof (lenN_tlv 48 _ ltac:(lia : lenN (tlv 160 (tlv 48 ntlm_oid_der) ++ tlv 162 (tlv 4 t)) < 2 ^ 31)). lia.
+  assert (L' : lenN (tlv 160 (tlv 48 ntlm_oid_der) ++ tlv 162 (tlv 4 t)) < 2 ^ 31) by lia.
+  pose proof (lenN_tlv 48 _ L'). lia.
 Qed.
 
 Theorem create_init_shape t : lenN t + 64 < 2 ^ 31 ->
@@ -185,7 +193,7 @@ Lemma state_field_cases state : neg_state state ->
   (state = 0%Z /\ state_field state = []) \/
   (state <> 0%Z /\ state_field state = tlv 160 (tlv 10 [Z.to_N state]) /\ int32_content [Z.to_N state] = Some state).
 Proof.
-  intros [->|[->|[->|->]]]; [left; split; reflexivity|right..]; (split; [discriminate|split; reflexivity]).
+  intros [ -> | [ -> | [ -> | -> ] ] ]; [left; split; reflexivity| right | right | right]; (split; [discriminate|split; reflexivity]).
 Qed.
 
 Lemma marshal_resp_shape state mech oc t : mech_coded mech oc ->
@@ -288,7 +296,7 @@ Lemma lenN_resp_inner state oc t mech :
 Proof.
   intros Hs Hm Ht. rewrite !lenN_app. pose proof (lenN_tok_field t Ht).
   assert (lenN (state_field state) <= 5).
-  { destruct Hs as [->|[->|[->|->]]]; vm_compute; congruence. }
+  { destruct Hs as [ -> | [ -> | [ -> | -> ] ] ]; vm_compute; congruence. }
   assert (lenN (mech_field oc) <= 1012).
   { destruct oc as [c|]; cbn [mech_field mech_coded] in *; [|cbn; lia].
     destruct Hm as (_ & _ & _ & Hc). pose proof (lenN_tlv 6 c ltac:(lia)).
@@ -304,7 +312,8 @@ Proof.
   rewrite (marshal_resp_shape state mech oc t Hm), marshal_spnego_oid.
   rewrite gss_wrap_tlv; [reflexivity|].
   pose proof (lenN_resp_inner state oc t mech Hs Hm ltac:(lia)) as L.
-  unfold resp_body. pose proof (lenN_tlv 48 _ ltac:(lia : lenN (state_field state ++ mech_field oc ++ tok_field t) < 2 ^ 31)).
+  unfold resp_body. assert (L' : lenN (state_field state ++ mech_field oc ++ tok_field t) < 2 ^ 31) by lia.
+  pose proof (lenN_tlv 48 _ L').
   change (lenN spnego_oid_der) with 8. change (2 ^ 63) with (4294967296 * 2 ^ 31). lia.
 Qed.
 
@@ -315,17 +324,23 @@ Theorem extract_wrap_resp state mech oc t :
 Proof.
   intros Hs Hm Ht. eexists. split; [apply (create_resp_shape state mech oc t); assumption|].
   pose proof (lenN_resp_inner state oc t mech Hs Hm ltac:(lia)) as L.
-  pose proof (lenN_tlv 48 _ ltac:(lia : lenN (state_field state ++ mech_field oc ++ tok_field t) < 2 ^ 31)) as L48.
+  assert (L' : lenN (state_field state ++ mech_field oc ++ tok_field t) < 2 ^ 31) by lia.
+  pose proof (lenN_tlv 48 _ L') as L48.
   assert (Hskip : skip_gss_header (tlv 96 (spnego_oid_der ++ resp_body state oc t)) = Ok (spnego_oid_der ++ resp_body state oc t)).
   { apply skip_gss_header_tlv. rewrite lenN_app. change (lenN spnego_oid_der) with 8. unfold resp_body. lia. }
   assert (Hresp : unmarshal_neg_token_resp (resp_body state oc t)
                   = Some {| ntr_state := state; ntr_mech := mech; ntr_token := Some t; ntr_mic := None |}).
   { unfold unmarshal_neg_token_resp, resp_body. rewrite <- (app_nil_r (tlv 48 _)).
-    erewrite parse_field_plain_hit; try reflexivity; try (vm_compute; congruence); [lia|].
+    rewrite (parse_field_plain_hit false 16 true neg_token_resp_content ntr_zero 48
+               (state_field state ++ mech_field oc ++ tok_field t) []
+               {| ntr_state := state; ntr_mech := mech; ntr_token := Some t; ntr_mic := None |});
+      [reflexivity|vm_compute; congruence|reflexivity|reflexivity|reflexivity|lia|].
     apply resp_content_spec; try assumption. lia. }
   assert (Hinit : unmarshal_neg_token_init (resp_body state oc t) = None).
   { unfold unmarshal_neg_token_init, resp_body. rewrite <- (app_nil_r (tlv 48 _)).
-    erewrite parse_field_plain_content_none; try reflexivity; try (vm_compute; congruence); [lia|].
+    rewrite (parse_field_plain_content_none false 16 true neg_token_init_content nti_zero 48
+               (state_field state ++ mech_field oc ++ tok_field t) []);
+      [reflexivity|vm_compute; congruence|reflexivity|reflexivity|reflexivity|lia|].
     apply (init_content_on_resp state oc t mech); try assumption. lia. }
   split.
   - unfold extract_ntlm_token. rewrite Hskip. cbn [bind]. rewrite unmarshal_oid_spnego, Hinit.
